@@ -255,13 +255,17 @@ def parseSpecChars (s : List Char) : Except String Spec :=
 def parseSpec (s : String) : Except String Spec := parseSpecChars s.toList
 
 /-- the grammar, written out: `<mol>[#<idx>][-<res>[#<resid>]]`, omitted fields are empty -/
+def nameChars : Option String → List Char
+  | some n => n.toList
+  | none => []
+
+def idxChars : Option Nat → List Char
+  | some i => '#' :: showNat i
+  | none => []
+
 def renderSpecChars (sp : Spec) : List Char :=
-  (match sp.molname with | some n => n.toList | none => [])
-  ++ (match sp.molIdx with | some i => '#' :: showNat i | none => [])
-  ++ (if sp.resname.isSome || sp.resid.isSome then
-        '-' :: ((match sp.resname with | some n => n.toList | none => [])
-                ++ (match sp.resid with | some i => '#' :: showNat i | none => []))
-      else [])
+  nameChars sp.molname ++ idxChars sp.molIdx
+  ++ (if sp.resname.isSome || sp.resid.isSome then '-' :: (nameChars sp.resname ++ idxChars sp.resid) else [])
 
 def renderSpec (sp : Spec) : String := String.ofList (renderSpecChars sp)
 
@@ -429,6 +433,31 @@ def ligOthersKept {π} [DecidableEq π] (attached : List Mol) (pos posAfter : Po
 
 def ligRoundTripB {π} [DecidableEq π] (orig attached final : List Mol) (pos posAfter : PosTable π) : Bool :=
   ligStructureSame orig final && ligPositionsHanded attached pos posAfter && ligOthersKept attached pos posAfter
+
+/-- a host specification addresses molecule `i` (no molecule field at all: every molecule) -/
+def hostAddresses (mols : List Mol) (sp : Spec) (i : Nat) : Bool :=
+  (match sp.molIdx with | some j => decide (j = i) | none => true) &&
+  (match sp.molname with | some n => decide ((mols[i]?.map (·.name)) = some n) | none => true)
+
+def nodeOf (mols : List Mol) (i k : Nat) : Option ResNode := (mols[i]?).bind fun m => m.nodes.find? (·.key == k)
+
+/-- "-lig specifications select by molecule name, molecule index, residue name and residue id as written":
+every attached node hangs on a residue selected by the host specification of some pair, and stands for a
+residue selected by the ligand specification of the same pair (and carries its name); every residue a host
+specification selects has a ligand attached. `edges` = (molecule, host node, attached node). -/
+def ligAttachOkB (orig attached : List Mol) (edges : List (Nat × Nat × Nat)) (pairs : List (Spec × Spec)) : Bool :=
+  ((ligatedNodes attached).all fun st =>
+    pairs.any fun p =>
+      hostAddresses orig p.1 st.1.1 &&
+      (edges.any fun e => decide (e.1 = st.1.1) && decide (e.2.2 = st.1.2) &&
+        ((orig[st.1.1]?).map (fun m => decide (e.2.1 ∈ findNodes m p.1))).getD false) &&
+      specAddresses orig p.2 st.2.1 &&
+      ((orig[st.2.1]?).map (fun m => decide (st.2.2 ∈ findNodes m p.2))).getD false &&
+      decide ((nodeOf attached st.1.1 st.1.2).map (·.resname) = (nodeOf orig st.2.1 st.2.2).map (·.resname)))
+  && (pairs.all fun p =>
+    orig.zipIdx.all fun mi =>
+      !hostAddresses orig p.1 mi.2 ||
+      (findNodes mi.1 p.1).all fun h => edges.any fun e => decide (e.1 = mi.2) && decide (e.2.1 = h))
 
 /-! ### E. `-split` -/
 
